@@ -45,6 +45,23 @@ use warp_core::{Hash, WorldlineId};
 use crate::util;
 
 const BOUND: u64 = 8;
+
+thread_local! {
+    /// Interpretation of the model's abstract `Bound`: 8 bytes (default) or the protocol ceiling
+    /// `MAX_EXTERNAL_ACTION_SETTLEMENT_BYTES_V1` (case field `"scale":"ceiling"`): "s2" is then a result of
+    /// exactly the ceiling, "oversized" one byte more. Same behaviours, same predicted classes.
+    static CEIL: std::cell::Cell<bool> = const { std::cell::Cell::new(false) };
+}
+fn ceil() -> bool {
+    CEIL.with(std::cell::Cell::get)
+}
+fn bound() -> u64 {
+    if ceil() {
+        MAX_EXTERNAL_ACTION_SETTLEMENT_BYTES_V1
+    } else {
+        BOUND
+    }
+}
 const STOCK: usize = 6;
 
 fn digest(label: &str) -> Hash {
@@ -113,7 +130,7 @@ fn build_request(name: &str, scope_digest: Hash, bytes: u64, attempts: u32) -> R
 }
 
 fn request_for(name: &str) -> ExternalActionRequestV1 {
-    build_request(name, scope(), BOUND, 1).expect("valid request fixture")
+    build_request(name, scope(), bound(), 1).expect("valid request fixture")
 }
 
 fn adapter(n: u8) -> ExternalActionAdapterIdV1 {
@@ -140,6 +157,8 @@ fn claim_args(v: &str) -> (ExternalActionAdapterIdV1, Hash) {
 fn stl_args(v: &str) -> (ExternalActionSettlementKindV1, Vec<u8>) {
     use ExternalActionSettlementKindV1 as K;
     match v {
+        "s2" if ceil() => (K::Succeeded, vec![0xb2; MAX_EXTERNAL_ACTION_SETTLEMENT_BYTES_V1 as usize]),
+        "oversized" if ceil() => (K::Succeeded, vec![0x31; MAX_EXTERNAL_ACTION_SETTLEMENT_BYTES_V1 as usize + 1]),
         "s2" => (K::Succeeded, b"b2b2b2b2".to_vec()),
         "rej" => (K::Rejected, b"b1".to_vec()),
         "fail" => (K::Failed, b"b1".to_vec()),
@@ -626,8 +645,8 @@ impl<'w> Sim<'w> {
     fn do_record(&mut self, r: &str, v: &str, plan: Plan) -> Outcome {
         let built = match v {
             "zero_bytes" => build_request(r, scope(), 0, 1),
-            "zero_attempts" => build_request(r, scope(), BOUND, 0),
-            "two_attempts" => build_request(r, scope(), BOUND, 2),
+            "zero_attempts" => build_request(r, scope(), bound(), 0),
+            "two_attempts" => build_request(r, scope(), bound(), 2),
             "over_limit" => build_request(r, scope(), MAX_EXTERNAL_ACTION_SETTLEMENT_BYTES_V1 + 1, 1),
             _ => Ok(self.reqs[r]),
         };
@@ -636,7 +655,11 @@ impl<'w> Sim<'w> {
             Err(e) => return Outcome::Class(err_class(&e)),
         };
         if v == "tampered" {
-            rq.budget.max_settlement_bytes += 1;
+            if ceil() {
+                rq.budget.max_settlement_bytes -= 1;
+            } else {
+                rq.budget.max_settlement_bytes += 1;
+            }
         }
         let ctx = context(&self.label("record"));
         match self.run_call(plan, |s, c| record_external_action_request(s, c, ctx, rq)) {
@@ -659,7 +682,7 @@ impl<'w> Sim<'w> {
         match v {
             "wrong_adapter" => self.reg.authorize(rq, adapter(9)),
             "auth_other_scope" => {
-                let other = build_request("r-other-scope", digest("c17:scope-other"), BOUND, 1)?;
+                let other = build_request("r-other-scope", digest("c17:scope-other"), bound(), 1)?;
                 self.reg.authorize(&other, adapter(1))
             }
             "auth_other_request" => self.reg.authorize(&request_for("rX"), adapter(1)),
@@ -1171,12 +1194,18 @@ fn check_case(scratch_cache: &mut BTreeMap<Vec<String>, Scratch>, v: &Value) -> 
     if names.is_empty() {
         return json!({"verdict":"tool_error","detail":"case has no request ids"});
     }
-    if !scratch_cache.contains_key(&names) {
+    let ceiling = v["scale"].as_str() == Some("ceiling");
+    CEIL.with(|c| c.set(ceiling));
+    let mut cache_key = names.clone();
+    if ceiling {
+        cache_key.push("#ceiling".into());
+    }
+    if !scratch_cache.contains_key(&cache_key) {
         let mut all = names.clone();
         all.push("rX".into());
-        scratch_cache.insert(names.clone(), Scratch::new(&all));
+        scratch_cache.insert(cache_key.clone(), Scratch::new(&all));
     }
-    let scratch = &scratch_cache[&names];
+    let scratch = &scratch_cache[&cache_key];
     let mut sim = Sim::new(&names, scratch, "rp");
     let raw = v["steps"].as_array().cloned().unwrap_or_default();
     let mut steps = Vec::with_capacity(raw.len());
